@@ -387,10 +387,16 @@ EXTRAS3 = {
  "C01": ("Ebu.Spec.Flow", FLOWHDR +
     fl("flow_snapshot_then_dispatch", "publishPrelude", "`PublishContext` copies the registrations of the type under the shard's read lock, releases it, and only then walks the copy (M1's `publish` takes its snapshot before any handler runs)") + "\n" +
     fl("flow_dispatch_order", "dispatchOrder", "one snapshot entry is handled in the order filter, once claim, dispatch – inside the loop over the snapshot") + "\n" +
-    fl("flow_retire_by_identity", "retireByIdentity", "fired once handlers are removed after the loop, under the write lock, by pointer identity of the registration, one entry each")),
+    fl("flow_retire_by_identity", "retireByIdentity", "fired once handlers are removed after the loop, under the write lock, by pointer identity of the registration, one entry each") + "\n" +
+    fl("flow_subscribe_shape", "subscribeShape", "`Subscribe` / `SubscribeContext` apply the options (refusing a nil one) before the registration becomes visible and append it – once – under the shard's write lock") + "\n" +
+    fl("flow_unsubscribe_first_match", "unsubscribeShape", "`Unsubscribe` removes, under the write lock, the FIRST registration with the given code pointer and returns at once (exactly one registration); `handler not found` only after the whole list was searched") + "\n" +
+    fl("flow_clear_shape", "clearShape", "`Clear` deletes the type's entry, `ClearAll` replaces every shard's map, each under the shard's write lock")),
  "C02": ("Ebu.Spec.Flow", FLOWHDR +
     fl("flow_snapshot_under_read_lock", "publishPrelude", "the snapshot step of M2 is one read-locked copy, released before dispatch") + "\n" +
-    fl("flow_retire_by_identity", "retireByIdentity", "the retirement step of M2 removes exactly the claimed registrations (pointer identity) inside one write-locked section after the loop")),
+    fl("flow_retire_by_identity", "retireByIdentity", "the retirement step of M2 removes exactly the claimed registrations (pointer identity) inside one write-locked section after the loop") + "\n" +
+    fl("flow_registry_calls", "subscribeShape", "M2's `subscribe` step: options first, then one append under the write lock") + "\n" +
+    fl("flow_unsubscribe_first_match", "unsubscribeShape", "M2's `unsubscribe` step (`eraseFirst`): the first registration with that code pointer, one entry, under the write lock") + "\n" +
+    fl("flow_clear_shape", "clearShape", "M2's `clear` step: one delete under the write lock")),
  "C04": ("Ebu.Spec.Flow", FLOWHDR +
     fl("flow_filter_and_ctx_before_claim", "ctxCheckBeforeClaim", "between the filter and the once claim the loop checks the context and skips the entry with `continue` (a rejected or cancelled delivery never reaches the compare-and-swap)") + "\n" +
     fl("flow_claim_order", "dispatchOrder", "filter, then compare-and-swap, then the note for retirement, then dispatch; one compare-and-swap per entry") + "\n" +
@@ -401,10 +407,12 @@ EXTRAS3 = {
     fl("flow_turn_release_deferred", "ticketDiscipline", "the turn of an Async+Sequential invocation is released by a `defer` registered right after it was obtained")),
  "C06": ("Ebu.Spec.Flow", FLOWHDR +
     fl("flow_inflight_brackets_goroutine", "inflightBracketsGoroutine", "M2's `inflight + 1` happens in the publisher before the `go` statement (outside the goroutine, once per async dispatch) and `inflight - 1` is deferred first thing inside the goroutine") + "\n" +
-    fl("flow_shutdown_shape", "shutdownShape", "`Shutdown` waits in a goroutine that then closes `done`; the store is closed only in the `<-done` branch – never in the `<-ctx.Done()` branch, never in the goroutine")),
+    fl("flow_shutdown_shape", "shutdownShape", "`Shutdown` waits in a goroutine that then closes `done`; the store is closed only in the `<-done` branch – never in the `<-ctx.Done()` branch, never in the goroutine") + "\n" +
+    fl("flow_wait_rechecks_and_done_broadcasts", "condVarShape", "`inflight.wait` re-checks the count in a loop around `cond.Wait`, `inflight.done` broadcasts when the count reaches zero (M2w's `Wake.broadcast`)")),
  "C07": ("Ebu.Spec.Flow", FLOWHDR +
     fl("flow_ticket_discipline", "ticketDiscipline", "the ticket is taken by the publisher (in dispatch order, before `go`), the turn is awaited inside the goroutine before the handler call, and released by a `defer` registered right after") + "\n" +
-    fl("flow_handler_mutex", "handlerBracket", "the Sequential mutex is taken in `callHandlerWithContext` and unlocked by a `defer` registered right after the lock")),
+    fl("flow_handler_mutex", "handlerBracket", "the Sequential mutex is taken in `callHandlerWithContext` and unlocked by a `defer` registered right after the lock") + "\n" +
+    fl("flow_turn_wakes_every_waiter", "condVarShape", "`awaitTurn` re-checks `seqServing` in a loop around `seqCond.Wait` and `releaseTurn` advances `seqServing` and BROADCASTS under `seqMu`: M2's turn step is enabled exactly when `serving = ticket`, which needs every waiting goroutine to be woken, not just one")),
  "C08": ("Ebu.Spec.Flow", FLOWHDR +
     fl("flow_hooks_before_dispatch", "publishPrelude", "publish-start callback, before-hooks (each once, outside every loop), persistence, snapshot – in this order, before the dispatch loop") + "\n" +
     fl("flow_hooks_after_dispatch", "publishEpilogue", "after-hooks and the publish-complete callback come after the loop and the retirement, each once, outside every loop, and no path of `PublishContext` returns before them") + "\n" +
@@ -415,6 +423,8 @@ EXTRAS3 = {
  "C11": ("Ebu.Spec.Flow", FLOWHDR +
     fl("flow_replay_shape", "replayShape", "`Replay` never appends, publishes or subscribes; the paged loop stops on an empty page, has the stuck-offset guard, and inspects every callback result") + "\n" +
     fl("flow_sqlite_stream_checks_rows_err", "sqliteShape", "the SQLite batched stream inspects `rows.Err()` after the row loop and yields it")),
+ "C10": ("Ebu.Spec.Flow", FLOWHDR +
+    fl("flow_memory_store_shape", "memoryStoreShape", "`MemoryStore`: Append reserves the offset (formatted from the counter) and inserts the record under the write lock; Read keeps the events with `offset > from` (all from the oldest offset) in log order and stops when the limit is reached; SaveOffset writes under the write lock – what M3's memory store transcribes")),
  "C12": ("Ebu.Spec.Flow", FLOWHDR +
     fl("flow_resume_shape", "resumeShape", "`SubscribeWithReplay`: LoadOffset, then Replay, then – only after it has finished – the live registration; in the replay callback: upcast, select by name, decode, handler, THEN SaveOffset") + "\n" +
     fl("flow_resume_live_shape", "resumeLiveShape", "the live handler: handler first, then inside one `saveMu` critical section read `bus.lastOffset` under `storeMu` and save it, unless nothing was persisted yet")),
